@@ -7,7 +7,9 @@ use espada::hand_range::HandRange;
 
 #[derive(Clone, Debug)]
 pub enum Spec {
-    /// construct (new + scope + into_iter), then next() until None plus `extra` more calls
+    /// new() + scope(), then into_iter() (two operations: the evaluator can change threads or wait in between), then
+    /// next() until None plus `extra` more calls. A configuration whose label starts with "shared " takes its ranges
+    /// from ONE Vec<HandRange> per execution, shared with every other actor of the group that has the same ranges
     Eval { cfg: Config, scope: (u8, u8, u8, u8), extra: usize },
     /// construct, take `take` showdowns, then abandon the iterator (it is dropped mid-enumeration)
     Abandon { cfg: Config, scope: (u8, u8, u8, u8), take: usize },
@@ -31,6 +33,7 @@ unsafe impl<T> Sync for ForceSend<T> {}
 
 pub enum State {
     EvalFresh,
+    EvalBuilt(espada::evaluator::FlopExhaustiveEvaluator),
     EvalRunning(Iter),
     ParserFresh,
     ParserHas(HandRange, usize),
@@ -41,6 +44,8 @@ pub struct Actor {
     pub spec: Spec,
     pub state: State,
     pub done_nones: usize,
+    /// the caller's ranges, when several actors are built from the same Vec<HandRange>
+    pub shared: Option<std::sync::Arc<Vec<HandRange>>>,
 }
 
 pub fn showdown_sig(sd: &espada::evaluator::Showdown) -> String {
@@ -62,7 +67,35 @@ impl Actor {
             Spec::BadBoard { .. } => State::ParserFresh,
             Spec::Churn { .. } => State::ChurnAt(0),
         };
-        Actor { spec: spec.clone(), state, done_nones: 0 }
+        Actor { spec: spec.clone(), state, done_nones: 0, shared: None }
+    }
+
+    /// the actors of one execution; evaluator actors whose configuration is labelled "shared ..." and whose ranges
+    /// are the same are all built from one and the same Vec<HandRange> (the caller keeps its ranges and builds
+    /// several evaluators from them, as the multi-thread example does)
+    pub fn new_group(specs: &[Spec]) -> Vec<Actor> {
+        let mut pool: Vec<(String, std::sync::Arc<Vec<HandRange>>)> = vec![];
+        specs
+            .iter()
+            .map(|sp| {
+                let mut a = Actor::new(sp);
+                if let Spec::Eval { cfg, .. } | Spec::Abandon { cfg, .. } = sp {
+                    if cfg.label.starts_with("shared ") {
+                        let key = format!("{:?}", cfg.ranges);
+                        let arc = match pool.iter().find(|(k, _)| *k == key) {
+                            Some((_, a)) => a.clone(),
+                            None => {
+                                let a = std::sync::Arc::new(cfg.hand_ranges());
+                                pool.push((key, a.clone()));
+                                a
+                            }
+                        };
+                        a.shared = Some(arc);
+                    }
+                }
+                a
+            })
+            .collect()
     }
 
     /// perform the next operation and return what was observed
@@ -70,10 +103,17 @@ impl Actor {
         let st = std::mem::replace(&mut self.state, State::EvalFresh);
         match (st, &self.spec) {
             (State::EvalFresh, Spec::Eval { cfg, scope, .. }) | (State::EvalFresh, Spec::Abandon { cfg, scope, .. }) => {
-                let mut ev = cfg.evaluator();
+                let mut ev = match &self.shared {
+                    Some(r) => espada::evaluator::FlopExhaustiveEvaluator::new(&board_opt(&cfg.flop), r),
+                    None => cfg.evaluator(),
+                };
                 ev.scope(scope.0, scope.1, scope.2, scope.3);
+                self.state = State::EvalBuilt(ev);
+                "new".to_string()
+            }
+            (State::EvalBuilt(ev), _) => {
                 self.state = State::EvalRunning(ev.into_iter());
-                "built".to_string()
+                "iterating".to_string()
             }
             (State::EvalRunning(mut it), _) => {
                 let o = match it.next() {
@@ -154,6 +194,7 @@ pub fn solo(spec: &Spec) -> Vec<String> {
     match spec {
         Spec::Eval { extra, .. } => {
             out.push(a.step());
+            out.push(a.step());
             loop {
                 let o = a.step();
                 let none = o == "None";
@@ -168,6 +209,7 @@ pub fn solo(spec: &Spec) -> Vec<String> {
             }
         }
         Spec::Abandon { take, .. } => {
+            out.push(a.step());
             out.push(a.step());
             for _ in 0..*take {
                 out.push(a.step());
@@ -200,6 +242,17 @@ pub fn eval_spec(flop: [&str; 3], ranges: &[&[(&str, f32)]], scope: (u8, u8, u8,
     let rs: Vec<Vec<(Combo, f32)>> = ranges.iter().map(|r| r.iter().map(|(t, w)| (Combo::new(c(&t[0..2]), c(&t[2..4])), *w)).collect()).collect();
     let label = Config::describe_ranges(&rs);
     Spec::Eval { cfg: Config { flop: [c(flop[0]), c(flop[1]), c(flop[2])], ranges: rs, label }, scope, extra }
+}
+
+/// mark a configuration as built from the caller's shared Vec<HandRange> (see Actor::new_group)
+pub fn shared(spec: Spec) -> Spec {
+    match spec {
+        Spec::Eval { mut cfg, scope, extra } => {
+            cfg.label = format!("shared {}", cfg.label);
+            Spec::Eval { cfg, scope, extra }
+        }
+        o => o,
+    }
 }
 
 pub fn abandon_spec(flop: [&str; 3], ranges: &[&[(&str, f32)]], scope: (u8, u8, u8, u8), take: usize) -> Spec {
@@ -246,6 +299,7 @@ pub fn groups() -> Vec<(&'static str, Vec<Spec>)> {
     let r6: &[(&str, f32)] = &[("JdTh", 1.0), ("9c9d", 0.5)];
     let r7: &[(&str, f32)] = &[("JdTh", 1.0), ("9c9d", 0.5), ("7s6s", 0.25), ("5h5d", 1.0)];
     let r8: &[(&str, f32)] = &[("QcJc", 1.0), ("4s4h", 0.5)];
+    let r9: &[(&str, f32)] = &[("AsKs", 0.5), ("QdJd", 1.0)];
     let r7r: &[(&str, f32)] = &[("5h5d", 1.0), ("7s6s", 0.25), ("9c9d", 0.5), ("JdTh", 1.0)];
     let r5r: &[(&str, f32)] = &[("5d5h", 1.0), ("QcQd", 0.5)];
     vec![
@@ -287,6 +341,10 @@ pub fn groups() -> Vec<(&'static str, Vec<Spec>)> {
         // a long-lived evaluator beside a solver loop that builds, uses and drops an evaluator on each of 20 other
         // flops (tables of per-board or per-job state with a capacity, eviction or compaction)
         ("long-lived-beside-churn", vec![eval_spec(f1, &[r4, r5], (0, 1, 0, 5), 1), churn_spec(20, &[r6], 2)]),
+        // the caller keeps ONE Vec<HandRange> and builds evaluators on different flops from it (one flop holds a card
+        // of a combo in the range; the scope lies where neither deck blocks any combo): what an evaluator does to
+        // "its" ranges must not reach the caller's or a sibling's
+        ("shared-ranges-other-flops", vec![shared(eval_spec(["As", "2d", "3c"], &[r9, r8], (30, 31, 30, 33), 1)), shared(eval_spec(["Th", "9h", "2s"], &[r9, r8], (30, 31, 30, 33), 1))]),
         // three evaluators, 6 operations each
         ("three-evaluators", vec![eval_spec(f1, &[r1], (0, 1, 0, 4), 1), eval_spec(f1, &[r1], (0, 1, 0, 4), 1), eval_spec(f2, &[r3], (47, 48, 48, 49), 3)]),
         // four evaluators, 3-4 operations each
